@@ -22,7 +22,8 @@ type schedWorld struct {
 	w     *wm.World
 	infos []*resource.Info
 	admin bool
-	eval  [][2]string // pod pairs queried through an engine filled object by object
+	eval  [][2]string      // pod pairs queried through an engine filled object by object
+	other []*resource.Info // the second manifest set of the diff commands (nil: the common one)
 }
 
 // podsWorld: workloads given as Pod documents sharing a controller ownerReference (a dump of a live cluster). The pods of
@@ -129,6 +130,19 @@ func schedWorlds(quick bool) []schedWorld {
 			Egress: []wm.NPRule{{Peers: []wm.NPPeer{{NSSel: wm.ML("team", "q"), Pod: &wm.Sel{ME: []wm.Req{reqB, reqA}}}}, Ports: []wm.NPPort{{HasPort: true, Num: 53, Proto: "UDP"}}},
 				{Peers: []wm.NPPeer{{NSSel: wm.ML("team", "q"), Pod: &wm.Sel{ME: []wm.Req{reqA, reqB}}}}, Ports: []wm.NPPort{{HasPort: true, Num: 54, Proto: "UDP"}}}}}}}
 		res = append(res, schedWorld{w: w, infos: w.Infos()})
+	}
+	// index 9: a diff in which a workload loses a connection to one address range and gains the very same connection to
+	// another one, in both directions and next to unchanged and changed ranges (the diff groups ip-block entries by their
+	// connections before merging touching ranges)
+	{
+		mk := func(eg1, eg2, in1, in2 string, port int) *wm.World {
+			return &wm.World{NSs: nss[:1], WLs: wls[:2], NPs: []wm.NP{{NS: "ns1", Name: "moved", PodSel: *wm.ML("app", "a"), Types: []string{"Ingress", "Egress"},
+				Egress:  []wm.NPRule{{Peers: []wm.NPPeer{{CIDR: eg1}, {CIDR: eg2}}, Ports: []wm.NPPort{{HasPort: true, Num: 443}}}, {Peers: []wm.NPPeer{{CIDR: "172.16.0.0/12"}}, Ports: []wm.NPPort{{HasPort: true, Num: port}}}},
+				Ingress: []wm.NPRule{{Peers: []wm.NPPeer{{CIDR: in1}, {CIDR: in2}}, Ports: []wm.NPPort{{HasPort: true, Num: 53, Proto: "UDP"}, {HasPort: true, Name: "http"}}}}}}}
+		}
+		a := mk("10.0.0.0/8", "30.0.0.0/8", "50.0.0.0/8", "70.1.0.0/16", 80)
+		b := mk("20.0.0.0/8", "31.0.0.0/8", "60.0.0.0/8", "70.0.0.0/16", 81)
+		res = append(res, schedWorld{w: a, infos: a.Infos(), other: b.Infos()})
 	}
 	if !quick {
 		for _, w := range []*wm.World{{NSs: nss, WLs: wls, NPs: []wm.NP{np1, np2, np3}, Svcs: svcs, Ings: ings, Routes: routes},
@@ -242,7 +256,11 @@ func runWith(wi int, devs map[int]func(n int) []int) ([]Output, []point, string)
 	}
 	defer func() { zzmapsched.Sched = nil }()
 	sw := schedWs[wi]
-	out := AllOutputs(sw.infos, otherInfos(), sw.admin, sw.eval)
+	other := otherInfos()
+	if sw.other != nil {
+		other = sw.other
+	}
+	out := AllOutputs(sw.infos, other, sw.admin, sw.eval)
 	return out, pts, diverged
 }
 
